@@ -33,7 +33,8 @@ THOROUGH_N = 6000
 CHUNK = 1
 RULE = ("gen(seed) draws a workload: 1-2 requests (Content-Length / chunked bodies, stream <= 300 B "
         "in quick), application kind (web sync / async sleeping / @stream_request_body incl. early "
-        "finish / raw HTTPServerConnectionDelegate / plain callable), response scripts (sleeps, "
+        "finish / raw HTTPServerConnectionDelegate / plain callable, the latter two with or without "
+        "set_close_callback and optionally never finishing), response scripts (sleeps, "
         "writes, awaited flushes), client window + manual consumption (back-pressure), server "
         "chunk_size / body_timeout / idle_connection_timeout, 2-3 segmentations, low-rate "
         "recv_cap/send_cap/defer/spurious/late tapes, shutdown delay. expand() enumerates: FIN and RST "
@@ -56,8 +57,9 @@ COMPONENTS = {
 }
 ASSUMPTIONS = [
     "SimNet TCP model: FIN is ordered behind data, RST is not and discards unread data",
-    "handlers used here always terminate; raw/callable applications abandon a response once "
-    "their connection close callback has run (they never call finish() afterwards)",
+    "web handlers used here always terminate; raw/callable applications come with or without a "
+    "connection close callback ('nocb'); those with one abandon the response once it has run; some "
+    "('never') are long-poll style and never finish the response at all",
     "a delegate is matched to the request it was started for by the request target",
 ]
 NO_SHRINK = ()
@@ -293,7 +295,12 @@ class _Resp:
         self.hw = False
         steps = self.sc.get("steps") or ()
         self.total = sum(s[1] for s in steps if s[0] == "write")
-        conn.set_close_callback(self._on_close)
+        # "nocb": an application that never registers a connection close callback
+        # (nothing obliges it to); it then learns of a close only through failed writes
+        if not self.sc.get("nocb"):
+            conn.set_close_callback(self._on_close)
+        else:
+            st.probe("app_without_close_callback")
         if conn.stream.closed():
             st.probe("handler_started_on_closed_stream")
 
@@ -318,10 +325,17 @@ class _Resp:
         else:
             for s in steps:
                 self._write(s[1])
+            if self.sc.get("never"):
+                return self._park()
             if not self.hw:
                 self._write(0)
             self.conn.finish()
             self.hr["completed"] = 1
+
+    def _park(self):
+        """Long-poll style: the response is never finished by the application."""
+        self.st.probe("response_never_finished")
+        self.st.hook(self.ridx, "end")
 
     def _abandon(self):
         self.hr["abandoned"] = 1
@@ -348,6 +362,8 @@ class _Resp:
                             return self._abandon()
             if self.closed:
                 return self._abandon()
+            if self.sc.get("never"):
+                return self._park()
             if not self.hw:
                 self._write(0)
             self.conn.finish()
@@ -480,6 +496,11 @@ def gen(rng, tier, index):
                 sc["dr"] = rng.choice([1, 2, 3])
         if r["hk"] == "t" and rng.random() < 0.25:
             sc["early"] = rng.choice(["prepare", "raise", "data"])
+        if r["hk"] in ("w", "c"):
+            if rng.random() < 0.5:
+                sc["nocb"] = True
+            if rng.random() < 0.25:
+                sc["never"] = True
         r["script"] = sc
         reqs.append(r)
     data, metas = build_stream(reqs)
@@ -560,6 +581,8 @@ def _suspension_points(reqs):
                 pts.append((i, "d%d" % n))
         if hk == "s":
             continue
+        if sc.get("never") and hk in ("w", "c"):
+            pts.append((i, "end"))
         for j, s in enumerate(sc.get("steps") or ()):
             if s[0] == "sleep" or (s[0] == "write" and s[2]):
                 pts.append((i, "s%d" % j))
